@@ -59,8 +59,12 @@ def get_unit_and_comment_from_assignment(
             try:
                 # Try to parse the unit
                 unit = units.ureg(potential_unit.text)
-            except (units.pint.UndefinedUnitError, AttributeError):
-                # Not a proper unit so it's a comment
+            except Exception:
+                # Not a proper unit so it's a comment. Note that pint can
+                # raise all sorts of exceptions when parsing arbitrary text
+                # (e.g tokenize.TokenError, DefinitionSyntaxError,
+                # ZeroDivisionError), and a comment should never
+                # make a model fail to load
                 return None, atoms.Comment(potential_unit.text)
             else:
                 if isinstance(unit, units.pint.Quantity):
